@@ -127,7 +127,74 @@ def normalise(t: T, bound_name: str = "x") -> T:
             return tuple(_val_any(i) for i in e)
         return e
 
-    return go(t, False)
+    TRUE, FALSE = const(True), const(False)
+
+    def negate(x: T) -> T:
+        return go(T("not", (x,)), False)
+
+    def mk(op: str, items) -> T:
+        flat = []
+        for i in items:
+            if i.op == "bool" and i.a[0] == op:
+                flat.extend(i.a[1])
+            else:
+                flat.append(i)
+        unit, zero = (TRUE, FALSE) if op == "and" else (FALSE, TRUE)
+        if any(i == zero for i in flat):
+            return zero
+        flat = sorted({i for i in flat if i != unit}, key=sym.pretty)
+        if not flat:
+            return unit
+        return flat[0] if len(flat) == 1 else T("bool", (op, tuple(flat)))
+
+    def tidy(x: T) -> T:
+        """Boolean-valued conditionals become and/or; a disjunct is simplified knowing the other disjuncts are false
+        (`A or (B and not A)` is `A or B`), a conjunct knowing the others are true."""
+        if x.op == "ite":
+            c, a, b = x.a
+            a, b = tidy(a), tidy(b)
+            c = tidy(go(c, False))
+            if a == TRUE:
+                return tidy(mk("or", [c, b]))
+            if a == FALSE:
+                return tidy(mk("and", [negate(c), b]))
+            if b == TRUE:
+                return tidy(mk("or", [negate(c), a]))
+            if b == FALSE:
+                return tidy(mk("and", [c, a]))
+            return T("ite", (c, a, b))
+        if x.op == "not" and x.a[0].op == "ite":
+            inner = tidy(x.a[0])
+            return x if inner.op == "ite" else negate(inner)
+        if x.op == "bool":
+            op = x.a[0]
+            items = [tidy(i) for i in x.a[1]]
+            dual = "and" if op == "or" else "or"
+            changed = True
+            while changed:
+                changed = False
+                for i, it in enumerate(items):
+                    others = items[:i] + items[i + 1:]
+                    if it.op == "bool" and it.a[0] == dual:
+                        sub = list(it.a[1])
+                        # inside `or`: the other disjuncts are false; inside `and`: the other conjuncts are true
+                        keep = [d for d in sub if not any(d == (negate(o) if op == "or" else o) for o in others)]
+                        if any(d == (o if op == "or" else negate(o)) for d in sub for o in others):
+                            new = FALSE if op == "or" else TRUE
+                        else:
+                            new = mk(dual, keep) if len(keep) != len(sub) else it
+                        if new != it:
+                            items[i] = new
+                            changed = True
+            return mk(op, items)
+        return x
+
+    out = go(t, False)
+    if any(y.op == "ite" for y in sym.walk(out)) or out.op == "bool":
+        out2 = tidy(out)
+        if out2 != out:
+            out = go(out2, False)
+    return out
 
 
 def _exists(x: T):
